@@ -100,6 +100,10 @@ impl Shard {
     pub fn count(&mut self, name: &str, n: u64) {
         *self.counters.entry(name.to_string()).or_insert(0) += n;
     }
+    /// value of a counter of this shard so far
+    pub fn c_local(&self, name: &str) -> u64 {
+        self.counters.get(name).copied().unwrap_or(0)
+    }
     pub fn hist(&mut self, name: &str, key: &str) {
         self.hist_n(name, key, 1);
     }
